@@ -59,6 +59,41 @@ def reset_top_path(b):
     return "none"
 
 
+def is_mode_bits(t, expr, arg):
+    """expr computes the split list a mode needs: `match ARG { Mode::A => InfoSubset::SPLIT_A, Mode::B => InfoSubset::SPLIT_B,
+    _ | Mode::C => InfoSubset::empty() }` written in place, or a call F(ARG) / Self::F(ARG) of a one-parameter function of the same
+    file whose whole body is that match on its parameter"""
+    def table(e, a):
+        e = re.sub(r"\s+", "", e)
+        a = re.escape(re.sub(r"\s+", "", a))
+        return re.fullmatch(r"match%s\{Mode::A=>InfoSubset::SPLIT_A,Mode::B=>InfoSubset::SPLIT_B,(?:_|Mode::C)=>InfoSubset::empty\(\),?\}" % a, e) is not None
+    if table(expr, arg):
+        return True
+    m = re.fullmatch(r"\s*(?:Self::|self\.)?(\w+)\(\s*%s\s*\)\s*" % re.escape(arg), expr)
+    if not m:
+        return False
+    f = R._fn(t, m.group(1))
+    if f is None or len(f[0]) != 1:
+        return False
+    body = f[1].strip()
+    r = re.fullmatch(r"return\b(.*);", body, flags=re.S)
+    return table(r.group(1) if r else body, f[0][0])
+
+
+def set_mode_subset(t, rel):
+    """set_mode(mode): `self.subset |= <split list of mode>; mem::replace(&mut self.mode, mode)`;
+    set_subset(subset): `let M = <split list of self.mode>; let S = (subset | M).normalize(); mem::replace(&mut self.subset, S | M)`"""
+    b = F.fn_body(t, "set_mode", rel)
+    m = re.fullmatch(r"\s*self\.subset\s*\|=\s*([^;]*?);\s*std::mem::replace\(&mut\s+self\.mode,\s*mode\)\s*", b, flags=re.S)
+    if not m or not is_mode_bits(t, m.group(1), "mode"):
+        raise F.FactError("set_mode: not in the recognised shape")
+    b = F.fn_body(t, "set_subset", rel)
+    m = re.fullmatch(r"\s*let\s+(\w+)\s*=\s*([^;]*?);\s*let\s+(\w+)\s*=\s*\(subset\s*\|\s*\1\)\.normalize\(\);\s*"
+                     r"std::mem::replace\(&mut\s+self\.subset,\s*\3\s*\|\s*\1\)\s*", b, flags=re.S)
+    if not m or not is_mode_bits(t, m.group(2), "self.mode"):
+        raise F.FactError("set_subset: not in the recognised shape")
+
+
 def collect_results_swaps(t, b):
     """MorphemeList::collect_results(&mut self, A): `A.swap_result(&mut P.input, &mut self.nodes.mut_data(), &mut P.subset)` where
     P is `G.deref_mut()` of the guard G of `self.input.try_borrow_mut()` -- obtained through `match .. { Ok(mut G) => .. }` or through
@@ -138,12 +173,7 @@ def gen():
     need(r"std::mem::swap\(&mut\s+self\.input,\s*input\);\s*std::mem::swap\(self\.top_path\.as_mut\(\)\.unwrap\(\),\s*result\);\s*\*subset\s*=\s*self\.subset;", b,
          "swap_result: not in the recognised shape")
     out.append("Definition swap_result_recognised : bool := true.\n")
-    b = F.fn_body(t, "set_mode", rel)
-    need(r"self\.subset\s*\|=\s*match\s+mode\s*\{\s*Mode::A\s*=>\s*InfoSubset::SPLIT_A,\s*Mode::B\s*=>\s*InfoSubset::SPLIT_B,\s*_\s*=>\s*InfoSubset::empty\(\),\s*\};\s*std::mem::replace\(&mut\s+self\.mode,\s*mode\)", b,
-         "set_mode: not in the recognised shape")
-    b = F.fn_body(t, "set_subset", rel)
-    need(r"let\s+new_subset\s*=\s*\(subset\s*\|\s*mode_subset\)\.normalize\(\);\s*std::mem::replace\(&mut\s+self\.subset,\s*new_subset\s*\|\s*mode_subset\)", b,
-         "set_subset: not in the recognised shape")
+    set_mode_subset(t, rel)
     out.append("Definition set_mode_subset_recognised : bool := true.\n")
     m = re.search(r"impl<'a>\s+LatticeBuilder<'a>\s*\{(.*)\Z", t, flags=re.S)
     if not m:
